@@ -36,7 +36,9 @@ CFG = dict(
         "ResetSize rewinding the sizes over logs that keep their stale tails); uint64 arithmetic modelled in N without "
         "wrap-around (agrees for sizes < 2^58; n = 0 never reaches the addressing functions since 172c7ab); "
         "NOT modelled (tie only): the digest/payload caches (read-through; the tie reads the log through them), the "
-        "three appendable files and the commit log (C17/C03), Sync/Close/Open, the stale tails of the htree level arrays",
+        "three appendable files as byte logs (C17/C03), Sync; Close+Open is modelled as re-deriving the sizes from the "
+        "number of commit-log entries on disk (reopen_at), incl. the rewind-not-durable behaviour; the stale tails of "
+        "the htree level arrays",
         "hook /repo/embedded/ahtree/verif_hooks_c08.go (build tag verif, add-only): VerifNodesUpto/VerifNodesUntil/"
         "VerifLevelsAt, VerifDigests",
     ],
